@@ -10,6 +10,9 @@ open Romea Romea.Proto Romea.Geodesy
     ecef.inv  a b X Y Z             → lat lon h | diverged
     ecef.rt   a b lat lon h         → X Y Z lat' lon' h' | diverged           (fwd, then inv on its exact output)
     ecef.rti  a b X Y Z             → lat lon h X' Y' Z' | diverged           (inv, then fwd on its exact output)
+    ecef.use  a b                   → ok                (ONE converter object that lives until the next `ecef.use` / end of case)
+    ecef.pfwd / ecef.pinv / ecef.prt / ecef.prti  (arguments without `a b`)    the same four operations on that object: the model
+                                    is a pure function of the ellipsoid, so a converter that remembers anything between calls disagrees
 -/
 
 /-- fuel of the latitude loop; the C++ side runs under a watchdog instead -/
@@ -20,7 +23,7 @@ def fmtGeo (g : Geo Float) : String := unwords [fmtF64 g.lat, fmtF64 g.lon, fmtF
 
 def floats? (l : List String) : Option (List Float) := parseAll? parseF64? l
 
-def step (_ : Unit) (toks : List String) : Unit × String :=
+def step1 (_ : Unit) (toks : List String) : Unit × String :=
   match toks with
   | ["ecef.grs80"] =>
     let E : Ellipsoid Float := grs80
@@ -61,4 +64,19 @@ def step (_ : Unit) (toks : List String) : Unit × String :=
     | _ => ((), "bad-op")
   | _ => ((), "bad-op")
 
-def main : IO Unit := Proto.run () step
+/-- state = the ellipsoid of the persistent converter (`ecef.use`), if any -/
+def step (st : Option (Float × Float)) (toks : List String) : Option (Float × Float) × String :=
+  match toks with
+  | ["ecef.use", a, b] =>
+    match parseF64? a, parseF64? b with
+    | some a, some b => (some (a, b), "ok")
+    | _, _ => (st, "bad-op")
+  | op :: args =>
+    if op == "ecef.pfwd" || op == "ecef.pinv" || op == "ecef.prt" || op == "ecef.prti" then
+      match st with
+      | some (a, b) => (st, (step1 () (("ecef." ++ (op.drop 6).toString) :: fmtF64 a :: fmtF64 b :: args)).2)
+      | none => (st, "bad-op")
+    else (st, (step1 () toks).2)
+  | [] => (st, "bad-op")
+
+def main : IO Unit := Proto.run none step
